@@ -70,7 +70,11 @@ def check_case(case):
     if fn == "roc":
         x = case["x"]
         secs = alpha.times_from_gaps(case["gaps"]) if x else []
-        out = alpha.call(qartod.rate_of_change_test, alpha.nd(x), mk_time(secs, case["carrier"]), case["thr"])
+        data = alpha.nd(x)
+        if case.get("data") == "ma":  # masked array with a finite value hidden under the mask
+            miss = [v in (alpha.NAN, None) for v in x]
+            data = np.ma.MaskedArray(np.array([-9999.0 if m else float(v) for v, m in zip(x, miss)]), mask=miss)
+        out = alpha.call(qartod.rate_of_change_test, data, mk_time(secs, case["carrier"]), case["thr"])
         acceptable = R.rate_of_change(alpha.ref(x), secs, case["thr"])
         vs, obs = judge_flags(PROP, "rate_of_change_test", out, acceptable, len(x), extra_sig=f"time={case['carrier']}")
         return vs, alpha.is_nontrivial(acceptable), obs, sum(a is None for a in acceptable)
@@ -114,7 +118,9 @@ def thresholds_for(track, gaps):
         if R.full(lon, lat, i) and R.full(lon, lat, i - 1):
             v = R.geodist(lat[i - 1], lon[i - 1], lat[i], lon[i]) / float(gaps[i - 1])
             if v > 0:
-                cands.update((0.9 * v, v, 1.1 * v))
+                import math as _m
+                d = v * float(gaps[i - 1])
+                cands.update((0.9 * v, v, 1.1 * v, _m.floor(d) / float(gaps[i - 1]), (_m.floor(d) + d) / 2 / float(gaps[i - 1])))
     return sorted(cands)
 
 
@@ -139,6 +145,10 @@ def run_task(task, acc):
                 for gaps in itertools.product(GAPS[:3], repeat=len(x) - 1):
                     for thr in THR[:3]:
                         yield dict(fn="roc", x=list(x), gaps=list(gaps), carrier="epoch_list", thr=thr)
+            for x in alpha.all_seqs(SIGMA, 1, 4):
+                if alpha.NAN in x:
+                    for thr in THR[:4]:
+                        yield dict(fn="roc", x=list(x), gaps=[60] * (len(x) - 1), carrier="dt64", thr=thr, data="ma")
         run_cases(acc, gen(), check_case)
     elif kind == "roc_len":
         def gen():
